@@ -1,12 +1,12 @@
 #!/bin/sh
 # re-evaluate every stored seed (seeded/<name>/patch.diff + demo.py) against /repo HEAD and the current checks;
-# results to /tmp/seedres/<name>.json ; then tools/seed_refresh.py folds them into the meta.json files
-mkdir -p /tmp/seedres
+# results to ${SEEDRES:-/tmp/seedres}/<name>.json ; then tools/seed_refresh.py folds them into the meta.json files
+mkdir -p ${SEEDRES:-/tmp/seedres}
 cd "$(dirname "$0")/.."
 for d in seeded/*/; do
   n=$(basename $d); p=$(python3 -c "import json;print(json.load(open('$d/meta.json'))['property'])")
   extra=$(python3 -c "import json;m=json.load(open('$d/meta.json'));print(','.join(sorted(set(m.get('caught_by',[]))-{m['property']})))")
   ids=$p; [ -n "$extra" ] && ids="$p,$extra"
-  timeout 3000 tools/seed_eval.py $d $ids > /tmp/seedres/$n.json 2>/dev/null
+  timeout 3000 tools/seed_eval.py $d $ids > ${SEEDRES:-/tmp/seedres}/$n.json 2>/dev/null
 done
-echo finished > /tmp/seedres/DONE
+echo finished > ${SEEDRES:-/tmp/seedres}/DONE
